@@ -38,6 +38,20 @@ func (c rc) und(rule, fn, object, pos, reason string) {
 
 func (c rc) fn(name string) *ssa.Function { return mustFunc(c.p, c.r, name) }
 
+// helper resolves an unexported helper function. A missing helper is not a
+// checker failure: the rules that are phrased over it cannot be discharged on
+// this tree, which is reported as an undecided obligation (the check fails with a
+// VIOLATION naming the anchor) while all other rules are still evaluated.
+func (c rc) helper(name string) *ssa.Function {
+	fn := c.p.Func(name)
+	if fn == nil || len(fn.Blocks) == 0 {
+		c.und("ANCHOR", name, "helper function", "-", "the helper the rules are phrased over does not exist in the current tree; the obligations about it cannot be discharged")
+		return nil
+	}
+	c.r.Functions[name] = true
+	return fn
+}
+
 func (c rc) fpos(fn *ssa.Function) string { return c.p.Pos(fn.Pos()) }
 
 // ---------------------------------------------------------------------------
